@@ -8,7 +8,7 @@ MultiTapering(e=, v=).  Genuine Slepian tapers, N up to 1024, adaptive weights: 
 import numpy as np
 
 from .. import core, material as M, tlc, obs, zoo
-from ..kern_util import call_guard, cmp_vec
+from ..kern_util import call_guard, cmp_vec, np_int
 
 TAPERS = {3: ('T3', 'L2'), 4: ('T4', 'L3')}
 
@@ -102,7 +102,7 @@ def obs_events(chk):
         tapers, lam = tv
         for method in ('unity', 'eigen', 'adapt'):
             ev = {'ev': 'pmtm', 'method': method, 'N': N, 'k': k, 'nfft': nfft, 'cplx': cplx, 'nw10': int(NW * 10)}
-            ok, res = call_guard(pmtm, x.copy(), NW=NW, k=k, NFFT=nfft, method=method)
+            ok, res = call_guard(pmtm, x.copy(), NW=NW, k=np_int(k, rep), NFFT=np_int(nfft, rep + 1), method=method)
             ev['raised'] = not ok
             if ok:
                 Sk, w, e = res
